@@ -36,6 +36,7 @@ func init() {
 		closer := c.P("closer", "0") == "1"
 		tls := c.P("tls", "0") == "1"
 		late := c.P("lateopen", "0") == "1"
+		srvFrames := c.PI("srvwrite", 0) // the accepting side also writes this many frames on each stream: either side's send may be the first to meet the fault
 		sc := &vrt.Scenario{
 			Opt:      vrt.Options{RandInt: chooseConnOpt(), Delay: c.P("delay", "0") == "1"},
 			Classify: deadlockIs("blocked-calls-return: a Read/Write/Accept/Close never returned after the fault"),
@@ -71,6 +72,17 @@ func init() {
 							return
 						}
 						s := conn.(*Stream)
+						if srvFrames > 0 {
+							wg.Add(1)
+							vrt.Go("srv-write", func() {
+								defer wg.Done()
+								for k := 0; k < srvFrames; k++ {
+									if _, err := s.Write(patternBytes(0, 1, k*256, 256)); err != nil {
+										return
+									}
+								}
+							})
+						}
 						wg.Add(1)
 						vrt.Go("srv-read", func() {
 							defer wg.Done()
@@ -98,8 +110,8 @@ func init() {
 						wg.Add(1)
 						vrt.Go(fmt.Sprintf("cli-read%d", i), func() {
 							defer wg.Done()
-							if acc := readToErr(s); len(acc) != 0 {
-								vrt.Fail("prefix-only", "client stream %d read %d bytes nobody wrote", i, len(acc))
+							if acc := readToErr(s); !bytes.HasPrefix(patternBytes(0, 1, 0, srvFrames*256), acc) {
+								vrt.Fail("prefix-only", "client stream %d read %d bytes that are not a prefix of the %d the server wrote", i, len(acc), srvFrames*256)
 							}
 						})
 						for k := 0; k < nframes; k++ {
@@ -169,6 +181,73 @@ func init() {
 					n += len(g)
 				}
 				vrt.Observe("delivered=%d/%d cli=%q srv=%q", n, total*nstream, r.cli.TerminalMsg(), r.srv.TerminalMsg())
+			},
+		}
+		return vx.RunSched(c, sc, sigOf("C12"))
+	}})
+
+	// driver (a2): the fault is met by senders first. One connection is reset while both sides are idle;
+	// before any receive loop has run, one side or both (every order) write on their stream, and the
+	// switchboard may pick the dead connection (explorer choice). However the failure is noticed, both
+	// sessions end up closed, every connection end closed, and the parked readers return.
+	vx.Register(&vx.Scenario{Name: "mux.faultsend", Prop: "C12", Run: func(c *vx.Ctx) *vx.Report {
+		nconn := c.PI("conns", 2)
+		sc := &vrt.Scenario{
+			Opt:      vrt.Options{RandInt: chooseConnOpt(), Delay: true},
+			Classify: deadlockIs("blocked-calls-return: a Read never returned after the fault"),
+			Main: func() {
+				r := newMuxRig(rigCfg{conns: nconn, unit: 256})
+				cs, err := r.cli.OpenStream()
+				if err != nil {
+					vrt.Fail("harness", "OpenStream: %v", err)
+				}
+				cs.Write([]byte{1})
+				conn, err := r.srv.Accept()
+				if err != nil {
+					vrt.Fail("harness", "Accept: %v", err)
+				}
+				ss := conn.(*Stream)
+				var wg sync.WaitGroup
+				for _, st := range []*Stream{cs, ss} {
+					st := st
+					wg.Add(1)
+					vrt.Go("reader", func() {
+						defer wg.Done()
+						b := make([]byte, 64)
+						for {
+							if _, err := st.Read(b); err != nil {
+								return
+							}
+						}
+					})
+				}
+				quiesce()
+				k := vrt.Choose(nconn, "which-connection-fails")
+				order := vrt.Choose(4, "who-sends")
+				r.sa[k].Reset()
+				switch order {
+				case 0:
+					cs.Write([]byte{2})
+					ss.Write([]byte{3})
+				case 1:
+					ss.Write([]byte{3})
+					cs.Write([]byte{2})
+				case 2:
+					cs.Write([]byte{2})
+				case 3:
+					ss.Write([]byte{3})
+				}
+				wg.Wait()
+				quiesce()
+				if !r.cli.IsClosed() || !r.srv.IsClosed() {
+					vrt.Fail("both-sessions-closed", "connection %d reset, senders %d: client closed=%v server closed=%v", k, order, r.cli.IsClosed(), r.srv.IsClosed())
+				}
+				for _, cn := range append(append([]*vnetConn{}, r.ca...), r.sa...) {
+					if !cn.IsClosed() {
+						vrt.Fail("all-conns-closed", "connection %d reset and first met by a sender (order %d): connection end %s is still open after teardown", k, order, cn.Name)
+					}
+				}
+				vrt.Observe("k=%d order=%d cli=%q srv=%q", k, order, r.cli.TerminalMsg(), r.srv.TerminalMsg())
 			},
 		}
 		return vx.RunSched(c, sc, sigOf("C12"))
@@ -408,6 +487,9 @@ func init() {
 			jobs = append(jobs, vx.Job{Scenario: "mux.fault", Params: vx.P("fault", f, "frames", "1", "closer", "1", "delay", "1"), Bound: b(2, 3), Weight: 8})
 		}
 		jobs = append(jobs, vx.Job{Scenario: "mux.fault", Params: vx.P("fault", "reset1", "streams", "2", "frames", "1", "delay", "1"), Bound: b(2, 3), Weight: 9})
+		jobs = append(jobs, vx.Job{Scenario: "mux.fault", Params: vx.P("fault", "reset0", "frames", "1", "srvwrite", "1", "delay", "1"), Bound: b(2, 3), Weight: 9})
+		jobs = append(jobs, vx.Job{Scenario: "mux.faultsend", Params: vx.P("conns", "2"), Bound: b(1, 2), Weight: 5})
+		jobs = append(jobs, vx.Job{Scenario: "mux.faultsend", Params: vx.P("conns", "3"), Bound: b(0, 1), Weight: 6})
 		for _, k := range []string{"0", "3", "5", "100", "274"} {
 			jobs = append(jobs, vx.Job{Scenario: "mux.fault", Params: vx.P("fault", "cut0:"+k, "frames", "2", "tls", "1", "conns", "1", "delay", "1"), Bound: b(2, 3), Weight: 6})
 		}
